@@ -245,4 +245,4 @@ def run_case(case, ctx):
     ctx.seen("offdiag_over_trace_decade", int(np.floor(np.log10(offd + 1e-30))))
     gen.scribble_spaces(st, nv)  # tensors handed out are the caller's: nothing later may depend on them
     ctx.sample({"case": case, "am": gen.small_params(am), "ph": gen.small_params(ph), "trace": tr,
-                "min_eig_over_trace": float(ev.min() / tr), "purity": float(np.real(np.trace(rl @ rl)) / tr ** 2)})
+                "min_eig_over_trace": float(ev.min() / tr), "purity": float(np.real(np.trace((rl / tr) @ (rl / tr))))})  # normalised first: tr**2 overflows for traces near 1e200
